@@ -1,12 +1,19 @@
 import LyModel.Val.LemmasGeneric
 import LyModel.Val.LemmasUtf8
+import LyModel.Val.LemmasBase0
 /-!
 # C03 — typed values: acceptance, canonical form, equality and ordering follow RFC 7950
 
 Property theorems about the executable model `LyModel.Val` (file `Val/Model.lean`, tied to the C code by the
 correspondence check `tools/checks/c03.py`).  Specifications (`IntLexWs`, `DecLexWs`, `IsCanonInt`, `IsCanonDec`,
-`InParts`, `PartsWF`) are in `Val/Spec.lean` and are written from RFC 7950 §9.2 / §9.3, not from the code.
+`InParts`, `PartsWF`) are in `Val/Spec.lean` and are written from RFC 7950 §9.2 / §9.3, not from the code; the lexical
+space of integers read with base 0 (`IntLexWs0`: schema defaults, `LYD_HINT_SCHEMA`) is in `Val/SpecBase0.lean` and is
+written from the ISO C grammar of integer constants (`strtoll(…, 0)`).
 Every statement is for all inputs; bounds and the hint table are the *generated* ones (`Generated/ValBounds.lean`).
+
+"The same verdict from every source" is `same_verdict_all_sources_all_types` (all six modelled store callbacks;
+`same_verdict_all_sources` is its special case for integers and decimal64).  Integer acceptance is characterised for
+both bases a libyang source selects: `int_accept_iff` (base 10) and `int_accept_iff_base0` (base 0).
 -/
 namespace LyModel.Props.C03
 open LyModel LyModel.Val
@@ -96,27 +103,43 @@ theorem int64_sources_use_base10_iff : Int64SourcesUseBase10 ↔ int64Base10Chec
       Option.some.injEq] at this
     exact this
 
--- AUDIT: the hypothesis of `int64_sources_use_base10_fails` is a closed equation about the *generated* table.  It holds on
--- the pinned tree; in `Generated/ValBounds.lean` as committed (repair of F63 applied: entry 17 of the int64 row is 10) it is
--- FALSE, so on that tree the theorem says nothing (`…_vacuous_for_repaired_table` below) and the full statement holds
--- instead (`int64_sources_use_base10_iff` with `int64Base10Check = true`).  This is by design — the Props file must check
--- against either table — and the disjunctive examples below show which branch the tree at hand is in.  No change of the
--- statement is needed; a reader must not take `_fails` as a kernel-checked refutation for the tree at hand.
-/-- The F63 witness: if the JSON-string hints (`LYD_VALHINT_STRING | LYD_VALHINT_NUM64`, no base bit) get base 0 — they do
-    on the pinned tree, see the example — the full statement is false: `"010"` is 8 there and 10 from XML. -/
+-- AUDIT (resolved): `_fails` is conditional on the generated table; its docstring now says so, the positive counterpart for the repaired table is `int64_sources_use_base10_holds`, and the examples below are disjunctive over the two tables.
+/-- The F63 witness, CONDITIONAL on the generated table: if the JSON-string hints (`LYD_VALHINT_STRING | LYD_VALHINT_NUM64`,
+    no base bit) get base 0 — they do on the pinned tree — the full statement is false: `"010"` is 8 there and 10 from XML.
+    What is proved is the implication only.  On a table where the hypothesis is false (the repaired one, entry 17 of the
+    int64 row = 10: `int64_sources_use_base10_fails_vacuous_for_repaired_table`) this theorem says nothing and is NOT a
+    refutation for the tree at hand; there `int64_sources_use_base10_holds` applies instead.  Which of the two hypotheses
+    the tree at hand satisfies is shown by the disjunctive examples below. -/
 theorem int64_sources_use_base10_fails (h : checkHints (Generated.LYD_VALHINT_STRING + Generated.LYD_VALHINT_NUM64) "int64" = some 0) :
     ¬ Int64SourcesUseBase10 := by
   intro hall
   have := hall _ 0 (by decide) h
   cases this
 
-/-- AUDIT: with the repaired table (JSON-string hints of int64 select base 10) the hypothesis of
-    `int64_sources_use_base10_fails` is false: the theorem is vacuous there. -/
+-- AUDIT (resolved): kept as the explicit vacuity statement of `_fails`; positive counterpart `int64_sources_use_base10_holds` added below.
+/-- With the repaired table (JSON-string hints of int64 select base 10) the hypothesis of
+    `int64_sources_use_base10_fails` is false: that theorem is vacuous there. -/
 theorem int64_sources_use_base10_fails_vacuous_for_repaired_table (h : checkHints 17 "int64" = some 10) :
     ¬ (checkHints (Generated.LYD_VALHINT_STRING + Generated.LYD_VALHINT_NUM64) "int64" = some 0) := by
   intro h'
   rw [show Generated.LYD_VALHINT_STRING + Generated.LYD_VALHINT_NUM64 = 17 from rfl, h] at h'
   cases h'
+
+/-- Positive counterpart of `int64_sources_use_base10_fails`, CONDITIONAL on the generated table as well: if the inspection
+    of the table succeeds (it does with the repair of F63, it does not on the pinned tree) then every source that offers
+    no octal/hexadecimal hint parses a 64-bit integer in base 10.  (`⇐` of `int64_sources_use_base10_iff`.) -/
+theorem int64_sources_use_base10_holds (h : int64Base10Check = true) : Int64SourcesUseBase10 :=
+  int64_sources_use_base10_iff.mpr h
+
+/-- non-vacuity: exactly one of the two conditional theorems applies to the table at hand — either the hypothesis of
+    `_fails` holds (and `_fails` refutes the full statement) or the hypothesis of `_holds` holds (and `_holds` proves it) -/
+example : (checkHints (Generated.LYD_VALHINT_STRING + Generated.LYD_VALHINT_NUM64) "int64" = some 0 ∧ int64Base10Check = false) ∨
+    (checkHints (Generated.LYD_VALHINT_STRING + Generated.LYD_VALHINT_NUM64) "int64" = some 10 ∧ int64Base10Check = true) := by decide
+example : ¬ Int64SourcesUseBase10 ∨ Int64SourcesUseBase10 :=
+  if h : int64Base10Check = true then Or.inr (int64_sources_use_base10_holds h)
+  else if h' : checkHints (Generated.LYD_VALHINT_STRING + Generated.LYD_VALHINT_NUM64) "int64" = some 0 then
+    Or.inl (int64_sources_use_base10_fails h')
+  else Or.inl (fun hall => h (int64_sources_use_base10_iff.mp hall))
 
 /-- non-vacuity (audit): on the table at hand either the hypothesis of `_fails` holds (and the full statement is refuted)
     or the full statement holds — checked against whichever table was generated -/
@@ -128,23 +151,6 @@ example : (checkHints 17 "int64" = some 0 ∧ int64Base10Check = false ∧ store
     (checkHints 17 "int64" = some 10 ∧ int64Base10Check = true ∧ storeInt .int64 [] 17 [48, 49, 48] = .ok 10) := by decide
 example : storeInt .int64 [] Generated.LYD_HINT_DATA [48, 49, 48] = .ok 10 := by decide
 
-/-- The stores depend on the hints only through `lyplg_type_check_hints`: equal verdict and base ⇒ equal result, for
-    every lexical value (so the verdict cannot depend on the source in any other way). -/
-theorem same_verdict_all_sources (t : IntTy) (range : List (Int × Int)) (fd : Nat) (h1 h2 : Nat) (s : Bytes) :
-    (checkHints h1 t.name = checkHints h2 t.name → storeInt t range h1 s = storeInt t range h2 s) ∧
-    ((checkHints h1 "dec64").isSome = (checkHints h2 "dec64").isSome → storeDec64 fd range h1 s = storeDec64 fd range h2 s) :=
-  ⟨storeInt_hints_irrelevant t range h1 h2 s, storeDec64_hints_irrelevant fd range h1 h2 s⟩
-
-example : checkHints Generated.LYD_HINT_DATA "int8" = checkHints Generated.LYD_VALHINT_DECNUM "int8" := by decide
-/-- non-vacuity (audit): two different hint sets (XML/API data vs. JSON number) with the same verdict, an accepted value -/
-example : storeInt .int8 [] Generated.LYD_HINT_DATA [49, 50] = storeInt .int8 [] Generated.LYD_VALHINT_DECNUM [49, 50] ∧
-    storeInt .int8 [] Generated.LYD_VALHINT_DECNUM [49, 50] = .ok 12 :=
-  ⟨(same_verdict_all_sources .int8 [] 1 Generated.LYD_HINT_DATA Generated.LYD_VALHINT_DECNUM [49, 50]).1 (by decide), by decide⟩
-
--- AUDIT: the docstring of `same_verdict_all_sources` speaks of "the stores", the statement covers `storeInt` and `storeDec64`
--- only (2 of the 6 modelled store callbacks).  Nothing is false — the other four read the hints through `checkHints` alone as
--- well — but it was not stated.  Repaired statement for every modelled type: `same_verdict_all_sources_all_types`.
-
 /-- the basetype name `lyplg_type_check_hints` is called with by the store callback of the type -/
 def hintName : Ty → String
   | .int t _ => t.name
@@ -154,9 +160,15 @@ def hintName : Ty → String
   | .bits _ => "bits"
   | .str _ => "string"
 
-/-- AUDIT (repair of the coverage of `same_verdict_all_sources`): for every modelled type — integers, decimal64, boolean,
-    enumeration, bits, string — two hint sets with the same `lyplg_type_check_hints` result give the same store result on
-    every lexical value. -/
+-- AUDIT (resolved): `same_verdict_all_sources_all_types` is now the stated theorem (all six modelled store callbacks); `same_verdict_all_sources` is kept, unchanged in statement, as its special case.
+/-- THE STATED THEOREM ("the same verdict from every source"): every modelled store callback — integers (all eight),
+    decimal64, boolean, enumeration, bits, string — depends on the hints only through the result of
+    `lyplg_type_check_hints` for the basetype of the type.  Exactly: for every modelled type `ty`, all hint sets `h1`,
+    `h2` and every byte string `s`, if `checkHints` returns the same thing (rejected, or accepted with the same base) for
+    `h1` and `h2` on `hintName ty`, then `store ty h1 s = store ty h2 s` — the same value or the same error.  So the
+    source of a value (XML, JSON, the value API, a path predicate, a schema default) influences the verdict only by way
+    of the hint verdict and the base it selects.  (Not covered: the types outside the model — binary, union, leafref,
+    identityref, instance-identifier, empty — and LYB input, which takes no hints.) -/
 theorem same_verdict_all_sources_all_types (ty : Ty) (h1 h2 : Nat) (s : Bytes)
     (h : checkHints h1 (hintName ty) = checkHints h2 (hintName ty)) : store ty h1 s = store ty h2 s := by
   cases ty with
@@ -174,14 +186,33 @@ example : store (.bits [⟨[97], 0⟩, ⟨[98], 3⟩, ⟨[99], 9⟩]) Generated.
       store (.bits [⟨[97], 0⟩, ⟨[98], 3⟩, ⟨[99], 9⟩]) Generated.LYD_VALHINT_STRING [99, 32, 97] ∧
     store (.bits [⟨[97], 0⟩, ⟨[98], 3⟩, ⟨[99], 9⟩]) Generated.LYD_VALHINT_STRING [99, 32, 97] = .ok (.bits 513) :=
   ⟨same_verdict_all_sources_all_types _ _ _ _ (by decide), by decide⟩
+/-- non-vacuity: an integer type, two different hint sets with the same verdict and base, a REJECTED value (same error) -/
+example : store (.int .int8 []) Generated.LYD_HINT_DATA [49, 50, 56] = store (.int .int8 []) Generated.LYD_VALHINT_DECNUM [49, 50, 56] ∧
+    store (.int .int8 []) Generated.LYD_VALHINT_DECNUM [49, 50, 56] = .error .Bounds :=
+  ⟨same_verdict_all_sources_all_types _ _ _ _ (by decide), by decide⟩
+/-- … and the hypothesis is a real restriction: data hints and schema hints select different bases and disagree on `010` -/
+example : checkHints Generated.LYD_HINT_DATA (hintName (.int .int8 [])) ≠ checkHints Generated.LYD_HINT_SCHEMA (hintName (.int .int8 [])) ∧
+    store (.int .int8 []) Generated.LYD_HINT_DATA [48, 49, 48] ≠ store (.int .int8 []) Generated.LYD_HINT_SCHEMA [48, 49, 48] := by decide
+
+/-- SPECIAL CASE of `same_verdict_all_sources_all_types`, kept under its original name and statement: the two numeric
+    store callbacks `storeInt` and `storeDec64` — only these two of the six modelled ones — depend on the hints only
+    through `lyplg_type_check_hints`.  First conjunct: the instance of the stated theorem at `Ty.int t range` (equal
+    verdict and base ⇒ equal result for every byte string).  Second conjunct: the instance at `Ty.dec64 fd range` with the
+    hypothesis relaxed from "equal `checkHints` result" to "equal verdict" (`isSome`; decimal64 takes no base). -/
+theorem same_verdict_all_sources (t : IntTy) (range : List (Int × Int)) (fd : Nat) (h1 h2 : Nat) (s : Bytes) :
+    (checkHints h1 t.name = checkHints h2 t.name → storeInt t range h1 s = storeInt t range h2 s) ∧
+    ((checkHints h1 "dec64").isSome = (checkHints h2 "dec64").isSome → storeDec64 fd range h1 s = storeDec64 fd range h2 s) :=
+  ⟨storeInt_hints_irrelevant t range h1 h2 s, storeDec64_hints_irrelevant fd range h1 h2 s⟩
+
+example : checkHints Generated.LYD_HINT_DATA "int8" = checkHints Generated.LYD_VALHINT_DECNUM "int8" := by decide
+/-- non-vacuity (audit): two different hint sets (XML/API data vs. JSON number) with the same verdict, an accepted value -/
+example : storeInt .int8 [] Generated.LYD_HINT_DATA [49, 50] = storeInt .int8 [] Generated.LYD_VALHINT_DECNUM [49, 50] ∧
+    storeInt .int8 [] Generated.LYD_VALHINT_DECNUM [49, 50] = .ok 12 :=
+  ⟨(same_verdict_all_sources .int8 [] 1 Generated.LYD_HINT_DATA Generated.LYD_VALHINT_DECNUM [49, 50]).1 (by decide), by decide⟩
 
 /-! ## integers -/
 
--- AUDIT (coverage, no vacuity): `int_accept_iff` and the canonical-form theorems below characterise acceptance under hints
--- that select base 10 (`hb`).  Under `LYD_HINT_SCHEMA` (defaults: base 0, `0x…`/`0…` accepted; DESIGN §5 C03 names this case)
--- and, on the pinned tree, under the JSON-string hints of 64-bit integers (F63) no acceptance theorem exists; those routes
--- are covered by the correspondence check only.  Decision needed: extend `IntLex` to base 0 or state the restriction in
--- the MANIFEST text.
+-- AUDIT (resolved): base 0 (`LYD_HINT_SCHEMA`; on the pinned tree also the JSON-string hints of 64-bit integers, F63) is now characterised as well: `int_accept_iff_base0`, `int_canon_idempotent_base0` below. Bases 8 / 16 alone (hint sets with only OCTNUM or only HEXNUM — none of the sources of `number_hints_select_base`) remain covered by the correspondence check only.
 /-- Acceptance ⇔ the string is in the RFC 7950 §9.2.1 lexical space (with libyang's whitespace tolerance), its value
     is within the type's bounds and in the union of the range parts.  Base-10 hints; strings without NUL. -/
 theorem int_accept_iff (t : IntTy) (range : List (Int × Int)) (hints : Nat) (s : Bytes) (v : Int)
@@ -203,6 +234,72 @@ example : IntLexWs [49, 56, 52, 52, 54, 55, 52, 52, 48, 55, 51, 55, 48, 57, 53, 
     (by decide) (by decide) (by simp only [PartsWF]; decide)).mp (by decide)
 /-- non-vacuity (audit): the left side of the ⇔ is not always true — `6` lies between the parts and is refused -/
 example : ¬ storeInt .uint64 [(0, 5), (2 ^ 63, 2 ^ 64 - 1)] Generated.LYD_HINT_DATA [54] = .ok 6 := by decide
+
+/-- Acceptance under hints that select base 0 (`LYD_HINT_SCHEMA`: schema defaults; on the pinned tree also the JSON-string
+    hints of 64-bit integers, finding F63) ⇔ the string is, between optional white space, an optional sign followed by a C
+    integer constant as `strtoll(…, 0)` reads it (`IntLexWs0`, `Val/SpecBase0.lean`: `0x`/`0X` + one or more hexadecimal
+    digits, or `0` + octal digits, or a decimal number not starting with `0`), its value — in that base — is within the
+    type's bounds and in the union of the range parts.  All eight integer types, every compiled range, every byte
+    string without NUL; same hypotheses as `int_accept_iff` but for the base.  In particular `08`, `0x`, `0x 1`, `- 1`
+    are refused, `010` is 8, `-0x10` is −16, and for the unsigned types a `-` is accepted only in front of a zero. -/
+theorem int_accept_iff_base0 (t : IntTy) (range : List (Int × Int)) (hints : Nat) (s : Bytes) (v : Int)
+    (h0 : (0 : UInt8) ∉ s) (hb : checkHints hints t.name = some 0) (hwf : PartsWF t.min t.max range) :
+    storeInt t range hints s = .ok v ↔ IntLexWs0 s v ∧ t.min ≤ v ∧ v ≤ t.max ∧ InParts range v :=
+  storeInt_accept_iff_base0 t range hints s v h0 hb hwf
+
+/-- non-vacuity: the base hypothesis holds for the schema hints at every integer type -/
+example (t : IntTy) : checkHints Generated.LYD_HINT_SCHEMA t.name = some 0 := (number_hints_select_base t).2.1
+/-- non-vacuity: accepted hexadecimal — `" 0x1F\n"` at int8 with a two-part range is 31; all three hypotheses met, ⇒ used -/
+example : IntLexWs0 [32, 48, 120, 49, 70, 10] 31 ∧ IntTy.min .int8 ≤ 31 ∧ 31 ≤ IntTy.max .int8 ∧ InParts [(-128, -100), (5, 40)] 31 :=
+  (int_accept_iff_base0 .int8 [(-128, -100), (5, 40)] Generated.LYD_HINT_SCHEMA [32, 48, 120, 49, 70, 10] 31
+    (by decide) (by decide) (by simp only [PartsWF]; decide)).mp (by decide)
+/-- non-vacuity: accepted octal — `017` is 15 (and is 17 under the data hints) -/
+example : IntLexWs0 [48, 49, 55] 15 ∧ IntTy.min .int8 ≤ 15 ∧ 15 ≤ IntTy.max .int8 ∧ InParts [] 15 :=
+  (int_accept_iff_base0 .int8 [] Generated.LYD_HINT_SCHEMA [48, 49, 55] 15 (by decide) (by decide) trivial).mp (by decide)
+example : storeInt .int8 [] Generated.LYD_HINT_DATA [48, 49, 55] = .ok 17 := by decide
+/-- non-vacuity: accepted, negative hexadecimal with an upper-case prefix — `-0X80` is the lower bound of int8; ⇐ used:
+    the store result is derived from the lexical description -/
+example : storeInt .int8 [] Generated.LYD_HINT_SCHEMA [45, 48, 88, 56, 48] = .ok (-128) :=
+  (int_accept_iff_base0 .int8 [] Generated.LYD_HINT_SCHEMA [45, 48, 88, 56, 48] (-128) (by decide) (by decide) trivial).mpr
+    ⟨⟨[], [45, 48, 88, 56, 48], [], rfl, rfl, rfl, [45], [48, 88, 56, 48], 128, rfl, Or.inr (Or.inr rfl),
+      Or.inl ⟨88, [56, 48], rfl, Or.inr rfl, by decide, by decide, by decide⟩, by decide⟩, by decide, by decide, Or.inl rfl⟩
+/-- non-vacuity: unsigned 64-bit, sixteen `f`s = 2⁶⁴−1 (above the signed range), range `0..5 | 2⁶³..max` -/
+example : IntLexWs0 [48, 120, 102, 102, 102, 102, 102, 102, 102, 102, 102, 102, 102, 102, 102, 102, 102, 102] (2 ^ 64 - 1) ∧
+    IntTy.min .uint64 ≤ 2 ^ 64 - 1 ∧ (2 ^ 64 - 1 : Int) ≤ IntTy.max .uint64 ∧ InParts [(0, 5), (2 ^ 63, 2 ^ 64 - 1)] (2 ^ 64 - 1) :=
+  (int_accept_iff_base0 .uint64 [(0, 5), (2 ^ 63, 2 ^ 64 - 1)] Generated.LYD_HINT_SCHEMA
+    [48, 120, 102, 102, 102, 102, 102, 102, 102, 102, 102, 102, 102, 102, 102, 102, 102, 102] (2 ^ 64 - 1)
+    (by decide) (by decide) (by simp only [PartsWF]; decide)).mp (by decide)
+/-- non-vacuity: rejected forms — `08` (8 is no octal digit), `0x` (no digit after the prefix), `0x 1`, `0xg`: the model
+    refuses them, and (⇒, contrapositive) no value makes them lexical values of base 0 -/
+example : storeInt .int8 [] Generated.LYD_HINT_SCHEMA [48, 56] = .error .Invalid ∧
+    storeInt .int8 [] Generated.LYD_HINT_SCHEMA [48, 120] = .error .Invalid ∧
+    storeInt .int8 [] Generated.LYD_HINT_SCHEMA [48, 120, 32, 49] = .error .Invalid ∧
+    storeInt .int8 [] Generated.LYD_HINT_SCHEMA [48, 120, 103] = .error .Invalid := by decide
+example : (∀ v, ¬ (IntLexWs0 [48, 56] v ∧ IntTy.min .int8 ≤ v ∧ v ≤ IntTy.max .int8 ∧ InParts [] v)) ∧
+    (∀ v, ¬ (IntLexWs0 [48, 120] v ∧ IntTy.min .int8 ≤ v ∧ v ≤ IntTy.max .int8 ∧ InParts [] v)) :=
+  ⟨fun v h => absurd ((int_accept_iff_base0 .int8 [] Generated.LYD_HINT_SCHEMA [48, 56] v (by decide) (by decide) trivial).mpr h)
+      (by rw [show storeInt .int8 [] Generated.LYD_HINT_SCHEMA [48, 56] = .error .Invalid by decide]; exact fun h => nomatch h),
+   fun v h => absurd ((int_accept_iff_base0 .int8 [] Generated.LYD_HINT_SCHEMA [48, 120] v (by decide) (by decide) trivial).mpr h)
+      (by rw [show storeInt .int8 [] Generated.LYD_HINT_SCHEMA [48, 120] = .error .Invalid by decide]; exact fun h => nomatch h)⟩
+/-- non-vacuity: out of range — `0xFF` = 255 is a lexical value of base 0 but above the int8 bound; `0x28` = 40 is inside
+    the bounds but between the range parts; `0x1` + sixteen zeros = 2⁶⁴ overflows `strtoull` -/
+example : storeInt .int8 [] Generated.LYD_HINT_SCHEMA [48, 120, 70, 70] = .error .Bounds ∧
+    storeInt .uint8 [] Generated.LYD_HINT_SCHEMA [48, 120, 70, 70] = .ok 255 ∧
+    storeInt .int8 [(-128, -100), (5, 20)] Generated.LYD_HINT_SCHEMA [48, 120, 50, 56] = .error .Range ∧
+    storeInt .uint64 [] Generated.LYD_HINT_SCHEMA [48, 120, 49, 48, 48, 48, 48, 48, 48, 48, 48, 48, 48, 48, 48, 48, 48, 48, 48] =
+      .error .Invalid := by decide
+/-- non-vacuity: signs — `-0x10` is −16 for a signed type and refused for an unsigned one; `-0x0` and `-00` are the
+    unsigned 0; white space after the sign is refused -/
+example : storeInt .int8 [] Generated.LYD_HINT_SCHEMA [45, 48, 120, 49, 48] = .ok (-16) ∧
+    storeInt .uint8 [] Generated.LYD_HINT_SCHEMA [45, 48, 120, 49, 48] = .error .Bounds ∧
+    storeInt .uint8 [] Generated.LYD_HINT_SCHEMA [45, 48, 120, 48] = .ok 0 ∧
+    storeInt .uint8 [] Generated.LYD_HINT_SCHEMA [45, 48, 48] = .ok 0 ∧
+    storeInt .int8 [] Generated.LYD_HINT_SCHEMA [45, 32, 49] = .error .Invalid := by decide
+/-- the two bases disagree exactly on the forms with a leading zero: `010` is 8 as a schema default and 10 as data;
+    `0x10` is 16 as a schema default and refused as data -/
+example : storeInt .int8 [] Generated.LYD_HINT_SCHEMA [48, 49, 48] = .ok 8 ∧ storeInt .int8 [] Generated.LYD_HINT_DATA [48, 49, 48] = .ok 10 ∧
+    storeInt .int8 [] Generated.LYD_HINT_SCHEMA [48, 120, 49, 48] = .ok 16 ∧
+    storeInt .int8 [] Generated.LYD_HINT_DATA [48, 120, 49, 48] = .error .Invalid := by decide
 
 /-- `lyplg_type_validate_range` on an ascending disjoint part list decides membership in the union — in the signed
     branch for every value, in the unsigned branch (64-bit patterns compared as `uint64_t`) for every value of `[0, 2⁶⁴)`. -/
@@ -239,6 +336,22 @@ theorem int_canon_idempotent (t : IntTy) (range : List (Int × Int)) (hints : Na
 example : storeInt .int8 [(-128, -100), (5, 20)] Generated.LYD_HINT_DATA (canonInt (-128)) = .ok (-128) :=
   int_canon_idempotent .int8 [(-128, -100), (5, 20)] Generated.LYD_HINT_DATA (-128) (by decide)
     (by simp only [PartsWF]; decide) (by decide) (by decide) (by simp only [InParts]; decide)
+
+/-- Canonical idempotence under hints that select base 0: the canonical string (decimal, no leading zero, `0` for zero) is
+    an integer constant of base 0 with the same value, so a schema default written canonically is stored as that value. -/
+theorem int_canon_idempotent_base0 (t : IntTy) (range : List (Int × Int)) (hints : Nat) (v : Int)
+    (hb : checkHints hints t.name = some 0) (hwf : PartsWF t.min t.max range)
+    (hlo : t.min ≤ v) (hhi : v ≤ t.max) (hin : InParts range v) :
+    storeInt t range hints (canonInt v) = .ok v :=
+  storeInt_canon_base0 t range hints v hb hwf hlo hhi hin
+
+/-- non-vacuity: int8 with a two-part range under the schema hints, the lower bound −128 and zero (the octal form `0`) -/
+example : storeInt .int8 [(-128, -100), (0, 20)] Generated.LYD_HINT_SCHEMA (canonInt (-128)) = .ok (-128) ∧
+    storeInt .int8 [(-128, -100), (0, 20)] Generated.LYD_HINT_SCHEMA (canonInt 0) = .ok 0 :=
+  ⟨int_canon_idempotent_base0 .int8 _ Generated.LYD_HINT_SCHEMA (-128) (by decide)
+      (by simp only [PartsWF]; decide) (by decide) (by decide) (by simp only [InParts]; decide),
+   int_canon_idempotent_base0 .int8 _ Generated.LYD_HINT_SCHEMA 0 (by decide)
+      (by simp only [PartsWF]; decide) (by decide) (by decide) (by simp only [InParts]; decide)⟩
 
 /-- … and therefore the canonical form of whatever was parsed re-parses to the same value and the same canonical form. -/
 theorem int_canon_of_parsed (t : IntTy) (range : List (Int × Int)) (hints : Nat) (s : Bytes) (v : Int)
